@@ -23,7 +23,7 @@ from vp.refs import mbxml_ref as R
 
 LEVEL = "exploration"
 RULE = (
-    "unsigned: dense sweep 0..2^16 (quick) / 0..2^21 (thorough), every septet-length boundary 128^k-1,128^k,128^k+1, every "
+    "unsigned: dense sweep 0..2^18 (quick) / 0..2^23 (thorough), every septet-length boundary 128^k-1,128^k,128^k+1, every "
     "m*128^j (m=1..127 and random m; j=1..4), values built from septet lists biased to 0x00/0x3F/0x40/0x7F, Hypothesis "
     "integers to 2^32-1; signed: +- the same magnitudes to 2^31-1 plus the 6+7n-bit boundaries; each value is read back "
     "between arbitrary lead and trail octets.  Floats: (i, f, p, sign) with value i + f/128^p exact in binary64: p=1 all 128 "
@@ -335,8 +335,8 @@ def _chunks(lst, n):
 def drv_uintvar(ctx: Ctx, sub: SubCheck):
     from hypothesis import strategies as st
 
-    limit = ctx.pick(2**16, 2**21)
-    step = limit // 64
+    limit = ctx.pick(2**18, 2**23)
+    step = limit // 256
 
     def mk(v):
         lead, trail = _lt(v)
@@ -352,20 +352,20 @@ def drv_uintvar(ctx: Ctx, sub: SubCheck):
 
     def hyp(shard, t: Tally):
         ctx.hypothesis(
-            sub.name, strat, oracle_uintvar, ctx.pick(250, 6000), tally=t, shard=shard,
+            sub.name, strat, oracle_uintvar, ctx.pick(1300, 6000), tally=t, shard=shard,
             record=lambda c, tt: tt.case(sub.name, key=c, nontrivial=(c["v"] >= limit and c["v"] not in sp), cls="random:" + uint_class(c["v"])),
         )
 
     warm_hypothesis_constants()
-    ctx.shards(hyp, list(range(16)))
+    ctx.shards(hyp, list(range(ctx.pick(16, 80))))
     ctx.tally.extra["uintvar_dense_sweep_upto"] = limit
 
 
 def drv_sintvar(ctx: Ctx, sub: SubCheck):
     from hypothesis import strategies as st
 
-    limit = ctx.pick(2**15, 2**20)
-    step = limit // 32
+    limit = ctx.pick(2**17, 2**22)
+    step = limit // 128
 
     def mk(v):
         lead, trail = _lt(abs(v) * 2 + (v < 0))
@@ -381,16 +381,17 @@ def drv_sintvar(ctx: Ctx, sub: SubCheck):
 
     def hyp(shard, t: Tally):
         ctx.hypothesis(
-            sub.name, strat, oracle_sintvar, ctx.pick(250, 6000), tally=t, shard=shard,
+            sub.name, strat, oracle_sintvar, ctx.pick(1300, 6000), tally=t, shard=shard,
             record=lambda c, tt: tt.case(sub.name, key=c, nontrivial=(abs(c["v"]) >= limit and abs(c["v"]) not in sp), cls="random:" + sint_class(c["v"])),
         )
 
     warm_hypothesis_constants()
-    ctx.shards(hyp, list(range(16)))
+    ctx.shards(hyp, list(range(ctx.pick(16, 80))))
     ctx.tally.extra["sintvar_dense_sweep_magnitude_upto"] = limit
 
 
-INT_PARTS = [0, 1, 37, 63, 64, 65, 100, 127, 128, 129, 160, 255, 256, 8191, 8192, 8193, 16383, 16384, 16385, 2**20, 2**21 - 1, 2**21, 2**27, 2**28 - 1, 2**28, S_MAX, S_MAX + 1, U_MAX - 1, U_MAX]
+INT_PARTS = [0, 1, 37, 63, 64, 65, 100, 127, 128, 129, 160, 255, 256, 8191, 8192, 8193, 16383, 16384, 16385, 2**20 - 1, 2**20, 2**21 - 1, 2**21, 2**27 - 1, 2**27, 2**28 - 1, 2**28,
+             S_MAX - 1, S_MAX, S_MAX + 1, U_MAX - 1, U_MAX]
 
 
 def _structured_fractions(p: int):
@@ -398,14 +399,14 @@ def _structured_fractions(p: int):
 
 
 def _p3_sample():
-    return sorted(set(range(0, 128**3, 509)) | {m * 128 for m in range(128)} | {m * 128**2 for m in range(128)} | set(range(130)) | {128**3 - 1, 128**2 + 1, 128**2 - 1} | set(_structured_fractions(3)))
+    return sorted(set(range(0, 128**3, 127)) | {m * 128 for m in range(128)} | {m * 128**2 for m in range(128)} | set(range(130)) | {128**3 - 1, 128**2 + 1, 128**2 - 1} | set(_structured_fractions(3)))
 
 
 def _float_plan(ctx: Ctx, signed: bool):
     """-> (items, covered(i, f, p)); blocks are disjoint by construction"""
     ints = [i for i in INT_PARTS if (i <= S_MAX or not signed)]
-    p2_ints = ctx.pick([0, 160], [0, 1, 64, 128, 160, 8192, S_MAX])
-    p3_ints = ctx.pick([0, 37, 128], [0, 37])
+    p2_ints = ctx.pick([0, 64, 128, 160], ints)
+    p3_ints = ctx.pick([0, 37, 64, 128], [0, 37, 64, 128, 8192, S_MAX])
     p3_sample = set(_p3_sample()) if ctx.quick else None
     items = []
     for i in ints:
@@ -484,12 +485,12 @@ def _drv_float(ctx: Ctx, sub: SubCheck, signed: bool):
 
     def hyp(shard, t: Tally):
         ctx.hypothesis(
-            sub.name, strat, oracle, ctx.pick(250, 6000), tally=t, shard=shard,
+            sub.name, strat, oracle, ctx.pick(1300, 6000), tally=t, shard=shard,
             record=lambda c, tt: tt.case(sub.name, key=c, nontrivial=(c["f"] > 0 and not covered(c["i"], c["f"], c["p"])), cls="random:" + _float_cls(c, signed)),
         )
 
     warm_hypothesis_constants()
-    ctx.shards(hyp, list(range(16)))
+    ctx.shards(hyp, list(range(ctx.pick(16, 80))))
 
 
 def drv_ufloat(ctx: Ctx, sub: SubCheck):
@@ -509,7 +510,7 @@ def drv_latlon(ctx: Ctx, sub: SubCheck):
     from hypothesis import strategies as st
 
     rng = ctx.rng("latlon")
-    n = ctx.pick(12000, 600000)
+    n = ctx.pick(50000, 3000000)
     sa, so = LAT_MAX // n, LON_MAX // n
     off_a, off_o = rng.randrange(sa), rng.randrange(so)
     per = max(200, n // 64)
@@ -532,11 +533,11 @@ def drv_latlon(ctx: Ctx, sub: SubCheck):
     strat = st.tuples(st.integers(0, LAT_MAX), st.integers(0, LON_MAX)).map(lambda t: {"lat": t[0], "lon": t[1]})
 
     def hyp(shard, t: Tally):
-        ctx.hypothesis(sub.name, strat, oracle_latlon, ctx.pick(150, 4000), tally=t, shard=shard,
+        ctx.hypothesis(sub.name, strat, oracle_latlon, ctx.pick(600, 4000), tally=t, shard=shard,
                        record=lambda c, tt: tt.case(sub.name, key=c, nontrivial=((c["lat"] > 0 or c["lon"] > 0) and not covered(c)), cls="random"))
 
     warm_hypothesis_constants()
-    ctx.shards(hyp, list(range(16)))
+    ctx.shards(hyp, list(range(ctx.pick(16, 80))))
 
 
 FORMS = ["datetime", "str", "int"]
@@ -555,8 +556,8 @@ def drv_infotime(ctx: Ctx, sub: SubCheck):
     from hypothesis import strategies as st
 
     rng = ctx.rng("infotime")
-    day_step = ctx.pick(7, 1)
-    sec_step = ctx.pick(13, 1)
+    day_step = ctx.pick(2, 1)
+    sec_step = ctx.pick(3, 1)
     triples = []  # (day, sec, form index, class)
     seen = set()
 
@@ -586,11 +587,11 @@ def drv_infotime(ctx: Ctx, sub: SubCheck):
         return ((date(y, mo, d) - D0).days, h * 3600 + mi * 60 + s, FORMS.index(c["form"])) in seen
 
     def hyp(shard, t: Tally):
-        ctx.hypothesis(sub.name, strat, oracle_infotime, ctx.pick(150, 4000), tally=t, shard=shard,
+        ctx.hypothesis(sub.name, strat, oracle_infotime, ctx.pick(600, 4000), tally=t, shard=shard,
                        record=lambda c, tt: tt.case(sub.name, key=c, nontrivial=(c["dt"][3:] != [0, 0, 0] and not in_enum(c)), cls="random:" + c["form"]))
 
     warm_hypothesis_constants()
-    ctx.shards(hyp, list(range(16)))
+    ctx.shards(hyp, list(range(ctx.pick(16, 80))))
 
 
 SUBCHECKS = [
